@@ -16,6 +16,7 @@
 #include "bsx.h"
 #include "votca/csg/topology.h"
 #include "votca/csg/topologyreader.h"
+#include "votca/csg/trajectoryreader.h"
 #include "votca/csg/units.h"
 #include "votca/tools/constants.h"
 #include "votca/tools/elements.h"
@@ -185,6 +186,150 @@ static Lammps read_lammps() {
     L.ok = true;
   } catch (const std::exception &e) { L.err = e.what(); }
   return L;
+}
+
+// ---------------------------------------------------------------- LAMMPS dump reader: every column flavour
+// The reader (lammpsdumpreader.cc ReadAtoms) accepts: id (mandatory), type (topology mode), x y z (unscaled),
+// xu yu zu (unwrapped), xs ys zs (scaled = fraction of the box of the SAME frame), vx vy vz, fx fy fz; every
+// other column (mol, ...) is skipped.  A case fixes the flavour of each position axis, presence of velocity /
+// force columns, extra columns, the order of the column groups, the place of the id column, the axis order inside
+// a group, the box, and the path (ReadTopology, or ReadTopology + Open/FirstFrame/NextFrame over two frames with
+// different values and a different box).  Two atoms, listed with ids out of order.
+static Outcome failo(const std::string &key, const std::string &what, const std::string &cas);
+struct LdCfg { std::string path, pos; int vel, frc, extra, perm, idpos, rev, box; };
+static std::string ldstr(const LdCfg &c) {
+  return "ldump;path=" + c.path + ";pos=" + c.pos + ";vel=" + std::to_string(c.vel) + ";frc=" + std::to_string(c.frc) + ";extra=" + std::to_string(c.extra) +
+         ";perm=" + std::to_string(c.perm) + ";idpos=" + std::to_string(c.idpos) + ";rev=" + std::to_string(c.rev) + ";box=" + std::to_string(c.box);
+}
+struct LdFrame { double lo[3], len[3]; double frac[2][3], vel[2][3], frc[2][3]; long step; };
+static LdFrame ldframe(int box, int frame) {
+  LdFrame f;
+  const double L0[3] = {10, 20, 40}, LO[3] = {1, -5, 2.5};
+  for (int d = 0; d < 3; d++) { f.len[d] = L0[d] * (frame == 0 ? 1.0 : 1.5); f.lo[d] = box ? LO[d] * (frame + 1) : 0.0; }
+  const double F[2][3] = {{0.25, 0.5, 0.75}, {0.125, 0.375, 0.625}}, V[2][3] = {{1, 2, 4}, {-3, 5, -7}}, G[2][3] = {{1, 2, 4}, {-0.5, 0.25, 8}};
+  for (int a = 0; a < 2; a++) for (int d = 0; d < 3; d++) { f.frac[a][d] = F[a][d] + 0.0625 * frame; f.vel[a][d] = V[a][d] * (1 + frame); f.frc[a][d] = G[a][d] - 3 * frame; }
+  f.step = 100 * frame + 7;
+  return f;
+}
+static std::string num(double v) { char b[64]; snprintf(b, sizeof b, "%.12g", v); return b; }
+static void ldwrite(std::ostream &out, const LdCfg &c, const LdFrame &f) {
+  out << "ITEM: TIMESTEP\n" << f.step << "\nITEM: NUMBER OF ATOMS\n2\nITEM: BOX BOUNDS pp pp pp\n";
+  for (int d = 0; d < 3; d++) out << num(f.lo[d]) << " " << num(f.lo[d] + f.len[d]) << "\n";
+  // column groups
+  static const int PERM[6][3] = {{0, 1, 2}, {0, 2, 1}, {1, 0, 2}, {1, 2, 0}, {2, 0, 1}, {2, 1, 0}};
+  for (int line = 0; line < 3; line++) {  // 0 header, 1 = atom id 2, 2 = atom id 1 (ids out of order)
+    int atom = line == 1 ? 1 : 0;
+    std::vector<std::vector<std::string>> grp(3);
+    for (int k = 0; k < 3; k++) {
+      int d = c.rev ? 2 - k : k;
+      const char ax = "xyz"[d];
+      if (c.pos != "---") {
+        char fl = c.pos[d];
+        std::string name = std::string(1, ax) + (fl == 'u' ? "u" : fl == 's' ? "s" : "");
+        double val = fl == 's' ? f.frac[atom][d] : f.lo[d] + f.frac[atom][d] * f.len[d];
+        grp[0].push_back(line == 0 ? name : num(val));
+      }
+      if (c.vel) grp[1].push_back(line == 0 ? std::string("v") + ax : num(f.vel[atom][d]));
+      if (c.frc) grp[2].push_back(line == 0 ? std::string("f") + ax : num(f.frc[atom][d]));
+    }
+    std::vector<std::string> idg{line == 0 ? "id" : std::to_string(atom + 1)};
+    if (c.extra == 1 || c.extra == 2) idg.push_back(line == 0 ? "type" : std::to_string(atom + 3));
+    if (c.extra == 2) idg.push_back(line == 0 ? "mol" : "7");
+    std::vector<std::string> cols;
+    for (int k = 0; k < 3; k++) {
+      if (k == c.idpos && c.idpos < 2) cols.insert(cols.end(), idg.begin(), idg.end());
+      auto &gk = grp[PERM[c.perm][k]];
+      cols.insert(cols.end(), gk.begin(), gk.end());
+    }
+    if (c.idpos == 2) cols.insert(cols.end(), idg.begin(), idg.end());
+    if (c.extra == 3) cols.push_back(line == 0 ? "q" : "-0.5");
+    if (line == 0) out << "ITEM: ATOMS";
+    for (size_t k = 0; k < cols.size(); k++) out << ((line == 0 || k) ? " " : "") << cols[k];
+    out << "\n";
+  }
+}
+static Outcome ldump_case(const LdCfg &c) {
+  using namespace votca::csg;
+  Outcome o;
+  std::string cas = ldstr(c);
+  UnitConverter uc;
+  const double a2nm = uc.convert(angstroms, nanometers);
+  const double v1 = uc.convert(angstroms_per_picosecond, nanometers_per_picosecond), v2 = uc.convert(angstroms_per_femtosecond, nanometers_per_picosecond);
+  static bool reg = false;
+  if (!reg) { TopologyReader::RegisterPlugins(); TrajectoryReader::RegisterPlugins(); reg = true; }
+  auto close = [](double got, double want) { return std::fabs(got - want) <= 1e-9 * std::max(1.0, std::fabs(want)); };
+  Topology top;
+  std::vector<LdFrame> frames;
+  try {
+    { std::ofstream f("ld_top.dump"); ldwrite(f, c, ldframe(c.box, 0)); }
+    std::unique_ptr<TopologyReader> tr = TopReaderFactory().Create("ld_top.dump");
+    tr->ReadTopology("ld_top.dump", top);
+  } catch (const std::exception &e) { return failo("lammpsdump-top-read-failed", std::string("ReadTopology threw: ") + e.what(), cas); }
+  std::unique_ptr<TrajectoryReader> rd;
+  int nframes = 1;
+  if (c.path == "trj") {
+    nframes = 2;
+    try {
+      { std::ofstream f("ld_trj.dump"); ldwrite(f, c, ldframe(c.box, 0)); ldwrite(f, c, ldframe(c.box, 1)); }
+      rd = TrjReaderFactory().Create("ld_trj.dump");
+      rd->Open("ld_trj.dump");
+    } catch (const std::exception &e) { return failo("lammpsdump-trj-read-failed", std::string("Open threw: ") + e.what(), cas); }
+  }
+  for (int fr = 0; fr < nframes; fr++) {
+    LdFrame f = ldframe(c.box, fr);
+    std::string where = c.path + (c.path == "trj" ? " frame " + std::to_string(fr + 1) : "");
+    if (c.path == "trj") {
+      try { if (fr == 0) rd->FirstFrame(top); else rd->NextFrame(top); } catch (const std::exception &e) {
+        return failo("lammpsdump-trj-read-failed", where + ": " + e.what(), cas);
+      }
+    }
+    if (top.BeadCount() != 2) return failo("lammpsdump-" + c.path + "-bead-count", where + ": " + std::to_string(top.BeadCount()) + " beads for 2 atoms", cas);
+    if ((long)top.getStep() != f.step) return failo("lammpsdump-" + c.path + "-timestep", where + ": step " + std::to_string(top.getStep()) + " instead of " + std::to_string(f.step), cas);
+    double boxnm[3];
+    for (int d = 0; d < 3; d++) {
+      boxnm[d] = top.getBox()(d, d);
+      if (!close(boxnm[d], f.len[d] * a2nm))
+        return failo("lammpsdump-" + c.path + "-box-factor", where + ": box " + "xyz"[d] + " = " + g(boxnm[d]) + " nm for " + g(f.len[d]) + " A (UnitConverter: " + g(f.len[d] * a2nm) + ")", cas);
+    }
+    for (int a = 0; a < 2; a++) {
+      Bead *b = top.getBead(a);
+      bool haspos = c.pos != "---";
+      if (b->HasPos() != haspos || b->HasVel() != (c.vel != 0) || b->HasF() != (c.frc != 0))
+        return failo("lammpsdump-" + c.path + "-has-flags", where + ": atom " + std::to_string(a + 1) + " HasPos/HasVel/HasF = " + std::to_string(b->HasPos()) + std::to_string(b->HasVel()) + std::to_string(b->HasF()), cas);
+      for (int d = 0; d < 3; d++) {
+        if (haspos) {
+          char fl = c.pos[d];
+          double got = b->getPos()[d];
+          double absA = f.lo[d] + f.frac[a][d] * f.len[d];
+          bool ok;
+          std::string want;
+          if (fl == 's') {  // fraction of the box of the same frame; the origin of the box may or may not be added
+            double w1 = f.frac[a][d] * boxnm[d], w2 = absA * a2nm;
+            ok = close(got, w1) || close(got, w2);
+            want = g(f.frac[a][d]) + " x box " + g(boxnm[d]) + " nm = " + g(w1);
+          } else {
+            ok = close(got, absA * a2nm);
+            want = g(absA) + " A x " + g(a2nm) + " = " + g(absA * a2nm);
+          }
+          if (!ok) return failo("lammpsdump-" + c.path + "-position-" + (fl == 's' ? "scaled" : fl == 'u' ? "unwrapped" : "unscaled") + "-factor",
+                                where + ": atom " + std::to_string(a + 1) + " " + "xyz"[d] + (fl == 's' ? "s" : fl == 'u' ? "u" : "") + " read as " + g(got) + " nm, expected " + want + " nm", cas);
+        }
+        if (c.vel) {
+          double got = b->getVel()[d], v = f.vel[a][d];
+          if (!close(got, v * v1) && !close(got, v * v2))
+            return failo("lammpsdump-" + c.path + "-velocity-factor", where + ": atom " + std::to_string(a + 1) + " v" + "xyz"[d] + " = " + g(v) + " read as " + g(got) + ", expected " + g(v * v1) + " (A/ps) or " + g(v * v2) + " (A/fs) nm/ps", cas);
+        }
+        if (c.frc) {  // either calorie is accepted here; the disagreement between the places is the 'cross' finding
+          double got = b->getF()[d], v = f.frc[a][d];
+          if (!agree4(got, v * ref::cal_th / a2nm) && !agree4(got, v * ref::cal_IT / a2nm))
+            return failo("lammpsdump-" + c.path + "-force-factor", where + ": atom " + std::to_string(a + 1) + " f" + "xyz"[d] + " = " + g(v) + " kcal/mol/A read as " + g(got) + ", expected " + g(v * ref::cal_th / a2nm) + " kJ/mol/nm", cas);
+        }
+      }
+    }
+  }
+  o.extra = "pos " + c.pos + (c.vel ? " vel" : "") + (c.frc ? " force" : "") + " via " + c.path + ": all factors right";
+  o.cls = bsx::fnv("ld" + c.path + c.pos + std::to_string(c.vel) + std::to_string(c.frc));
+  return o;
 }
 
 // ---------------------------------------------------------------- places that encode the same quantity
@@ -437,6 +582,11 @@ static Outcome run_case(const std::string &cas) {
       }
       return failo("bad-case", "unknown quantity", cas);
     }
+    if (kind == "ldump") {
+      LdCfg c{m["path"], m["pos"], atoi(m["vel"].c_str()), atoi(m["frc"].c_str()), atoi(m["extra"].c_str()), atoi(m["perm"].c_str()), atoi(m["idpos"].c_str()), atoi(m["rev"].c_str()), atoi(m["box"].c_str())};
+      if (c.pos.size() != 3 || (c.path != "top" && c.path != "trj") || c.perm < 0 || c.perm > 5 || c.idpos < 0 || c.idpos > 2) return failo("bad-case", "bad ldump case", cas);
+      return ldump_case(c);
+    }
     if (kind == "lammpsvel") {
       // velocities: the dump does not say the time unit. A/ps -> nm/ps is 0.1 (metal units), A/fs -> nm/ps is 100 (real units)
       double v = lammps_factor("vel");
@@ -547,6 +697,31 @@ int main(int argc, char **argv) {
     for (size_t i = 0; i < q.places.size(); i++) for (size_t j = i + 1; j < q.places.size(); j++)
       cases.push_back("cross;q=" + q.name + ";i=" + std::to_string(i) + ";j=" + std::to_string(j));
   cases.push_back("lammpsvel;x=1");
+  {  // LAMMPS dump reader: every accepted column flavour
+    bool thorough = a.tier == "thorough";
+    std::vector<std::string> uniform = {"---", "xxx", "uuu", "sss"}, mixed;
+    for (char x : std::string("xus")) for (char y : std::string("xus")) for (char z : std::string("xus")) {
+      std::string p{x, y, z};
+      if (p != "xxx" && p != "uuu" && p != "sss") mixed.push_back(p);
+    }
+    for (const char *path : {"top", "trj"}) {
+      if (!thorough) {
+        for (auto &p : uniform) for (int v = 0; v < 2; v++) for (int f = 0; f < 2; f++) for (int ex = 0; ex < 3; ex++) {
+          for (int perm = 0; perm < 6; perm++) cases.push_back(ldstr({path, p, v, f, ex, perm, 0, 0, 0}));
+          cases.push_back(ldstr({path, p, v, f, ex, 0, 1, 0, 0}));
+          cases.push_back(ldstr({path, p, v, f, ex, 0, 2, 1, 0}));
+        }
+        for (auto &p : mixed) cases.push_back(ldstr({path, p, 1, 1, 1, 0, 0, 0, 0}));
+        for (auto &p : uniform) cases.push_back(ldstr({path, p, 1, 1, 3, 3, 1, 1, 1}));
+      } else {
+        std::vector<std::string> all = uniform;
+        all.insert(all.end(), mixed.begin(), mixed.end());
+        for (auto &p : all) for (int v = 0; v < 2; v++) for (int f = 0; f < 2; f++) for (int ex = 0; ex < 4; ex++)
+          for (int perm = 0; perm < 6; perm++) for (int idpos = 0; idpos < 3; idpos++) for (int rev = 0; rev < 2; rev++) for (int box = 0; box < 2; box++)
+            cases.push_back(ldstr({path, p, v, f, ex, perm, idpos, rev, box}));
+      }
+    }
+  }
   ElemTables T = elem_tables();
   for (auto &s : T.symbols) for (const char *c : {"number", "mass", "order", "name", "covrad"}) cases.push_back("elem;sym=" + s + ";chk=" + c);
   for (auto &F : T.fullnames) cases.push_back("elemfull;name=" + F + ";chk=name");
@@ -554,7 +729,12 @@ int main(int argc, char **argv) {
   R.rule = "complete enumeration: every table entry, every ordered pair (there-and-back within 4 ulp, value against SI/CODATA-2018 to 4 significant digits) and every ordered "
            "triple (transitivity within 8 ulp) of all 9 UnitConverter enums; every pair of derived units (velocity, force, molar force) against the quotient of the base "
            "conversions; CsgUnits defaults; every tools::conv constant against CODATA-2018; every unordered pair of places that encode the same quantity (UnitConverter tables, "
-           "conv::, Elements::getCovRad units, LAMMPS dump reader factors read back from a one-atom dump file) to 4 significant digits; every element symbol found in any "
+           "conv::, Elements::getCovRad units, LAMMPS dump reader factors read back from a one-atom dump file) to 4 significant digits; LAMMPS dump reader, every accepted column flavour: "
+           "position axes each unscaled x / unwrapped xu / scaled xs (uniform and all 27 mixtures) or absent, velocity and force columns present/absent, extra columns (type, mol, q), "
+           "the 6 orders of the column groups, id column first/middle/last, axis order inside a group, box with zero / non-zero origin (quick: a covering subset, thorough: the full product), "
+           "two atoms with ids out of order, through ReadTopology and through ReadTopology+Open/FirstFrame/NextFrame over two frames with different values and a different box: every length = "
+           "value x UnitConverter(A->nm), scaled coordinate = fraction x box of the SAME frame, box, velocity (A/ps or A/fs), force (kcal/mol/A, either calorie), HasPos/HasVel/HasF, time step; "
+           "every element symbol found in any "
            "Elements table x {atomic number = nuclear charge = position in the periodic table, mass positive / IUPAC to 3 digits / mass->symbol lookup, mass order, "
            "symbol<->full name, covalent radius units} and every full name x {full name<->symbol}. distinct = distinct (dimension, factor) / (quantity, places) / (element, check) outcomes";
   std::vector<long long> mineidx;
@@ -568,14 +748,15 @@ int main(int argc, char **argv) {
         if (!o.ok) { R.fail(o.key == "fatal" ? "crash-" + kind : o.key, o.what + (o.key == "fatal" ? "  [" + cas + "]" : ""), cas); return; }
         if (o.cls) R.cls(o.cls);
         bool take = (kind == "cross" && R.counters["s_cross"]++ < 3) || (kind == "const" && R.counters["s_const"]++ < 2) || (kind == "si" && (k % 97) == 13 && R.counters["s_si"]++ < 3) ||
-                    (kind == "der" && (k % 17) == 5 && R.counters["s_der"]++ < 2) || (kind == "elem" && (k % 61) == 7 && R.counters["s_elem"]++ < 2);
+                    (kind == "der" && (k % 17) == 5 && R.counters["s_der"]++ < 2) || (kind == "elem" && (k % 61) == 7 && R.counters["s_elem"]++ < 2) || (kind == "ldump" && (k % 41) == 3 && R.counters["s_ld"]++ < 2);
         if (take) R.sample(cas + " : " + o.extra);
       }, 30);
-  for (const char *c : {"s_cross", "s_const", "s_si", "s_der", "s_elem"}) R.counters.erase(c);
+  for (const char *c : {"s_cross", "s_const", "s_si", "s_der", "s_elem", "s_ld"}) R.counters.erase(c);
   R.assumptions = {"'agree to 4 significant digits' = differ by at most half a unit of the 4th significant digit of the reference",
                    "the kilocalorie may be thermochemical (4.184 kJ) or International-Table (4.1868 kJ) when compared with SI alone; places inside the library must agree with each other",
                    "electron_volts_per_mole / hartrees_per_mole are read literally (1 eV per mole of particles = 1.602e-19 J/mol), as the table encodes them",
                    "LAMMPS dump velocities: the file does not state its time unit; A/ps (factor 0.1) and A/fs (factor 100) are both accepted",
+                   "LAMMPS scaled coordinates: fraction x box length of the same frame; whether the box origin (xlo) is added is not asserted (both accepted); forces in the column-flavour cases accept either calorie (the disagreement between places is the cross-kcal finding)",
                    "element masses are compared with IUPAC abridged standard atomic weights to 3 significant digits only (DESIGN C20); element NAMES are only required to be consistent between the two name tables, spelling is not checked against a dictionary",
                    "reference constants: CODATA 2018 (e, N_A, k_B, h exact; a0 = 5.29177210903e-11 m; E_h = 4.3597447222071e-18 J; u = 1.66053906660e-27 kg)"};
   if (!R.write(a.out)) { fprintf(stderr, "cannot write %s\n", a.out.c_str()); return 2; }
